@@ -77,6 +77,12 @@ def run_property(pid: str, tier: str, write_evidence=True, quiet=False) -> int:
 
     known = load_known_findings(KNOWN)
     failures = ctx.failures
+    if ctx.anchor_errors and not [ob for ob in failures if match_known(pid, ob, known) is None]:
+        for e in ctx.anchor_errors:
+            print(f"ANALYSIS-ERROR property={pid} anchor={e.anchor} reason={e.reason}")
+        return 2
+    for e in ctx.anchor_errors:
+        print(f"ANALYSIS-NOTE property={pid} anchor={e.anchor} undecided: {e.reason}")
     new, matched = [], []
     for ob in failures:
         k = match_known(pid, ob, known)
